@@ -152,6 +152,43 @@ example : (tlsClose (tlsRead ⟨true, false, true, false, false, true, true, tru
 example : (tlsClose ⟨true, true, true, false, false, true, true, true, .unchanged⟩ [⟨-1, .syscall, false⟩] none).rv = -1 := by
   decide
 
+/-- A refused context stays refused.  When the client's policy rejects the peer (verify_name on and
+    no certificate / name not covered) `tls_handshake` returns −1 and leaves TLS_HANDSHAKE_COMPLETE
+    clear; every later `tls_read`/`tls_write` on that context runs the handshake step again and — whether
+    `SSL_connect` says 1 again or reports anything `tls_ssl_error` does not map to 0 — fails again
+    without ever calling `SSL_read`/`SSL_write`: nothing is sent to or accepted from the refused peer. -/
+theorem refused_stays_refused (c : Conn) (r r' : SslRes) (rest : List SslRes) (n : Nat)
+    (hvalid : c.roleValid = true) (hcl : c.isServer = false) (hhc : c.hc = false) (hab : c.doAbort = false)
+    (hvn : c.verifyName = true) (hbad : c.peerCert = false ∨ c.nameOk = false)
+    (h1 : r.ret = 1) (hr' : r'.ret = 1 ∨ (r'.ret ≠ 1 ∧ (mapErr c r').1 ≠ 0)) :
+    let h := tlsHandshake c (r :: r' :: rest)
+    h.rv = -1 ∧ h.st.hc = false ∧
+    (tlsIO h.st h.rest n).rv ≠ 0 ∧ ¬ (tlsIO h.st h.rest n).rv > 0 ∧
+    (tlsIO h.st h.rest n).st.hc = false ∧ (tlsIO h.st h.rest n).rest = rest := by
+  have hh : tlsHandshake c (r :: r' :: rest) =
+      (if c.peerCert = false then ⟨-1, { c with err := .noCert }, r' :: rest⟩
+       else ⟨-1, { c with err := .name }, r' :: rest⟩) := by
+    rcases hbad with hb | hb
+    · simp [tlsHandshake, hvalid, pop, h1, hcl, hvn, hb]
+    · by_cases hp : c.peerCert = false
+      · simp [tlsHandshake, hvalid, pop, h1, hcl, hvn, hp]
+      · simp [tlsHandshake, hvalid, pop, h1, hcl, hvn, hb, hp]
+  by_cases hp : c.peerCert = false
+  · rw [if_pos hp] at hh
+    have := refused_io { c with err := .noCert } r' rest n hvalid hcl hhc hab hvn hbad
+      (by simpa [mapErr] using hr')
+    rw [hh]
+    exact ⟨rfl, hhc, this⟩
+  · rw [if_neg hp] at hh
+    have := refused_io { c with err := .name } r' rest n hvalid hcl hhc hab hvn hbad
+      (by simpa [mapErr] using hr')
+    rw [hh]
+    exact ⟨rfl, hhc, this⟩
+
+example : let h := tlsHandshake ⟨true, false, false, false, false, true, true, false, .unchanged⟩
+              [⟨1, .none, false⟩, ⟨1, .none, false⟩, ⟨6, .none, false⟩]
+    h.rv = -1 ∧ (tlsWrite h.st h.rest 6).rv = -1 ∧ (tlsWrite h.st h.rest 6).rest = [⟨6, .none, false⟩] := by decide
+
 /-! ## protocol versions -/
 
 /-- The negotiated version is common to both ends' effective version sets and is the highest such
